@@ -11,6 +11,7 @@ from hypothesis import given, seed as hseed, settings, HealthCheck, Phase, strat
 
 from . import gens as G
 from . import sim
+from . import refcodec as R
 from .core import Prop, ShardResult, Verdict, NPROC, ddmin
 from .facts import Facts
 from . import monitors as M
@@ -1014,6 +1015,18 @@ class C19(SessionProp):
         # everything behind them, so the solo run would not be the same history: left out there
         fragments = set(o[1] for o in ops if o[0] == "raw")
         ops = [o for o in ops if not (o[0] == "rx" and len(o) > 3 and o[3] == 7 and o[1] in fragments)]
+        # More generally, behind an *incomplete* frame the packet identifiers inside later packets decide how
+        # the stream is framed (a byte of an identifier is read as a length byte), and identifiers are exactly
+        # what differs, legitimately, between the merged and the solo run: raw data that is not a sequence of
+        # complete frames is left out of C19 histories (C03/C16 cover it on one address)
+        def _complete(o):
+            try:
+                data = bytes.fromhex(o[2]) if isinstance(o[2], str) else bytes(o[2])
+                frames, residue = R.ref_frames(data)
+                return not residue
+            except Exception:  # noqa: BLE001
+                return False
+        ops = [o for o in ops if o[0] != "raw" or _complete(o)]
         vd = Verdict()
         merged = sim.run_case(dict(cfg), ops)
         if merged.too_big:
